@@ -93,6 +93,9 @@ pub enum DecSel {
     All,
     Frac(u16),
     Exact(#[serde(with = "crate::ser::u128s")] u128),
+    /// the amount that brings the stored NET liquidity of the position's lower (false) / upper (true) tick to exactly zero while other
+    /// positions keep the tick's gross liquidity above zero (a tick shared with opposite roles); `All` when there is no such amount
+    NetZero(bool),
 }
 
 #[derive(Clone, Debug, Serialize, Deserialize, Hash, PartialEq, Eq)]
@@ -711,6 +714,24 @@ impl Hist {
                     DecSel::All => cur,
                     DecSel::Frac(f) => ((b(cur) * (*f as u32 + 1)) >> 16u32).try_into().unwrap_or(cur),
                     DecSel::Exact(x) => *x,
+                    DecSel::NetZero(upper) => {
+                        let info = &self.w.positions[p];
+                        let t = if *upper { info.upper } else { info.lower };
+                        let ts = self.spec.tick_spacing as i32;
+                        let net = self
+                            .tick_arrays()
+                            .iter()
+                            .find(|a| t >= a.start_tick_index && t < a.start_tick_index + 88 * ts)
+                            .map(|a| a.ticks[((t - a.start_tick_index) / ts) as usize].liquidity_net)
+                            .unwrap_or(0);
+                        // withdrawing x moves the lower tick's net by -x and the upper tick's by +x
+                        let x = if *upper { -net } else { net };
+                        if x > 0 && (x as u128) < cur {
+                            x as u128
+                        } else {
+                            cur
+                        }
+                    }
                 };
                 res.liquidity_delta = -(l.min(i128::MAX as u128) as i128);
                 self.w.ix_decrease(p, l, 0, 0, *v2)
@@ -1156,7 +1177,7 @@ pub fn op_strategy(with_rewards: bool) -> BoxedStrategy<Op> {
         1 => (gen::bits_u64(60), gen::bits_u64(60)).prop_map(|(max_a, max_b)| IncVariant::ByAmounts { max_a, max_b }),
         1 => (any::<bool>(), 0u8..AMOUNT_TARGETS.len() as u8, any::<u32>(), any::<bool>()).prop_map(|(token_a, target, frac, v2)| IncVariant::ForAmount { token_a, target, frac, v2 }),
     ];
-    let dec = prop_oneof![2 => Just(DecSel::All), 3 => any::<u16>().prop_map(DecSel::Frac), 1 => gen::bits_u128(100).prop_map(DecSel::Exact),
+    let dec = prop_oneof![2 => Just(DecSel::All), 1 => any::<bool>().prop_map(DecSel::NetZero), 3 => any::<u16>().prop_map(DecSel::Frac), 1 => gen::bits_u128(100).prop_map(DecSel::Exact),
         // amounts that do not fit the signed 128-bit delta (2^128 - k reads as +k when negated carelessly)
         1 => prop_oneof![(0u128..4).prop_map(|k| u128::MAX - k), gen::bits_u128(100).prop_map(|k| u128::MAX - k), gen::bits_u128(127).prop_map(|x| x | (1u128 << 127))].prop_map(DecSel::Exact)];
     let base = prop_oneof![
